@@ -409,4 +409,29 @@ theorem conflictCheck_sound (lits : List (Term × Bool)) (ws : List Rat) (h : co
   obtain ⟨c, d⟩ := cd
   simp only [Bool.and_eq_true] at h
   exact farkas_sound _ h.2 ⟨xI I, fun ik hik => hc.1 ik.1 (List.of_mem_zip hik).1⟩
+/-- the inequality a combination stands for -/
+def combHolds (x : Term → Rat) (r : Poly × Rat × Bool) : Prop :=
+  if r.2.2 then 0 < r.1.eval x + r.2.1 else 0 ≤ r.1.eval x + r.2.1
+
+/-- extending a combination by constraints that hold keeps it true: the step behind path interpolants of Farkas leaves -/
+theorem combine_extend (x : Term → Rat) (mid rest : List (Ineq × Rat))
+    (hpos : ∀ ik ∈ mid, 0 ≤ ik.2) (hh : ∀ ik ∈ mid, ik.1.holds x) (hr : combHolds x (combine rest)) :
+    combHolds x (combine (mid ++ rest)) := by
+  induction mid with
+  | nil => simpa using hr
+  | cons ik tl ih =>
+    obtain ⟨i, k⟩ := ik
+    have hk : 0 ≤ k := hpos (i, k) (by simp)
+    have hi : i.holds x := hh (i, k) (by simp)
+    have ih' := ih (fun a ha => hpos a (by simp [ha])) (fun a ha => hh a (by simp [ha]))
+    simp only [List.cons_append, combine]
+    generalize combine (tl ++ rest) = r at ih' ⊢
+    obtain ⟨p, c, s⟩ := r
+    unfold combHolds at ih' ⊢
+    simp only at ih' ⊢
+    rw [eval_addScaled]
+    unfold Ineq.holds Lin.eval at hi
+    cases s <;> by_cases hst : i.strict = true <;> by_cases hk' : 0 < k <;>
+      simp [hst, hk'] at hi ih' ⊢ <;> nlinarith
+
 end Osmt.LA
